@@ -64,6 +64,7 @@ def main(argv=None):
     mod = importlib.import_module(CHECKS[args.prop])
     mod.setup(root)
     from simkit import driver, core
+    driver._ROOT = root
     if args.digests is not None:
         print(json.dumps(driver.digests_local(mod, args.seed, args.tier, args.digests)))
         return 0
